@@ -22,6 +22,10 @@ func convURL(fam string, i int) string {
 	switch fam {
 	case "path":
 		return fmt.Sprintf("https://%s/zqs/view/%d", pagerHost, i)
+	case "pathmid":
+		return fmt.Sprintf("https://%s/zqs/%d/photos", pagerHost, i)
+	case "pathmidext":
+		return fmt.Sprintf("https://%s/zqs/%d/photos.html", pagerHost, i)
 	case "file":
 		return fmt.Sprintf("https://%s/zqs/view-%d.html", pagerHost, i)
 	default:
@@ -39,6 +43,8 @@ func convHref(fam string, i int, r int) string {
 		return strings.TrimPrefix(abs, "https://"+pagerHost)
 	default:
 		switch fam {
+		case "pathmid", "pathmidext":
+			return abs
 		case "path":
 			return fmt.Sprintf("%d", i) // relative to /zqs/view/<k>
 		case "file":
@@ -50,7 +56,7 @@ func convHref(fam string, i int, r int) string {
 }
 
 func wrapItems(items []string, wrap, sep string) string {
-	s := map[string]string{"space": " ", "bar": " | ", "none": ""}[sep]
+	s := map[string]string{"space": " ", "bar": " | ", "none": "", "comma": ", ", "tightbar": "|"}[sep]
 	switch wrap {
 	case "ulli":
 		var sb strings.Builder
@@ -259,7 +265,8 @@ func runPager(c Case, e *env) []Event {
 			case "ftp":
 				href = fmt.Sprintf("ftp://%s/zqs/view/%d", pagerHost, num)
 			case "offsite":
-				href = fmt.Sprintf("https://other.example.org/zqs/view/%d", num)
+				href = pickS(r, fmt.Sprintf("https://other.example.org/zqs/view/%d", num), fmt.Sprintf("https://other.example.org/zqs/view?pg=%d", num),
+					fmt.Sprintf("http://partner.example.net/news?page=%d", num))
 			case "lookprefix":
 				href = fmt.Sprintf("https://%s.evil.example.net/zqs/view/%d", pagerHost, num)
 			case "looksuffix":
@@ -286,6 +293,10 @@ func runPager(c Case, e *env) []Event {
 			items = append(items, fmt.Sprint(num))
 		}
 		pager = wrapItems(items, pickS(r, "div", "ulli", "span"), pickS(r, "space", "bar"))
+		if r.Intn(2) == 0 {
+			// the usual container of a pager: its class name is a positive hint for the prev/next scorer
+			pager = `<div class="pagination">` + pager + `</div>`
+		}
 		call = Event{"ev": "Call", "run": c.ID, "prop": e.prop, "c": map[string]interface{}{"kind": "mixed", "algo": algo, "page": page, "n": 0, "k": 0}}
 		count("mixed_" + algo)
 	}
